@@ -330,6 +330,15 @@ func (t Table) matchingHosts(req *http.Request, globCache *GlobCache) (hosts []s
 	}
 
 	hosts = sortHostsReverseHostPort(hosts)
+
+	// an exact host always beats a wildcard host, e.g. 'x.com' beats '*x.com'
+	for i, pattern := range hosts {
+		if pattern != "" && normalizeHost(pattern, req.TLS != nil) == host {
+			copy(hosts[1:i+1], hosts[:i])
+			hosts[0] = pattern
+			break
+		}
+	}
 	return
 }
 
